@@ -30,6 +30,7 @@ type Profile struct {
 	OneGenesisUnbond     bool // at most one genesis stake unbonding at a time (F6)
 	VaryGas              bool
 	ContractGasCap       uint64
+	Inject               bool // generate CheckTx/Query injections (C06, C19)
 }
 
 func defaultWeights() map[string]int {
@@ -72,6 +73,7 @@ type GenSource struct {
 	all     []*Actor
 	sentOK  [][]byte // earlier delivered txs (for replay ops)
 	sentAll [][]byte
+	fresh   [][]byte // valid txs built against the state committed before the current block (never delivered)
 	// hooks for engines that extend the schedule
 	OnEndBlock func(w *World, b *Block)
 }
@@ -239,7 +241,104 @@ func (s *GenSource) StartBlock(w *World) *Block {
 		}
 	}
 	s.nTx = unif(t, s.P.MaxTxs+1, "nTxs")
+	s.fresh = nil
+	if s.P.Inject {
+		// fresh valid transactions that only ever reach the mempool check
+		saveFault, saveW := s.P.PFault, s.P.W
+		s.P.PFault = 0
+		s.P.W = map[string]int{"transfer": 4, "stake": 8, "unstake": 5, "withdraw": 3, "propose": 3, "vote": 3, "setdoc": 1, "deploy": 1, "call": 1}
+		w.curH = h // txs are built for the coming block
+		for i, n := 0, unif(t, 4, "nFresh"); i < n; i++ {
+			raw, _ := s.genTx(w, b)
+			s.fresh = append(s.fresh, raw)
+		}
+		s.P.PFault, s.P.W = saveFault, saveW
+	}
 	return b
+}
+
+// genInjections decides, once the block's txs are known, which CheckTx/Query calls the
+// noisy replica serves at which ABCI-call boundary of this block.
+func (s *GenSource) genInjections(w *World, b *Block) {
+	t := s.t
+	n := len(b.Txs)
+	posGen := func(label string) int { return unif(t, n+4, label) - 1 } // -1 .. n+2
+	// (a) mempool checks of the block's own txs (as a real mempool does), at or before their delivery, or later as duplicates
+	for i, tx := range b.Txs {
+		if pct(t, 60, "checkOwn") {
+			pos := i
+			switch unif(t, 4, "ownPos") {
+			case 0:
+				pos = -1
+			case 1:
+				pos = unif(t, i+1, "ownPosBefore")
+			case 2:
+				pos = i
+			case 3:
+				pos = posGen("ownPosAny")
+			}
+			b.Inject = append(b.Inject, Injected{Pos: pos, Kind: "check", Tx: tx})
+		}
+	}
+	// (b) fresh valid txs
+	for _, tx := range s.fresh {
+		pos := posGen("freshPos")
+		if pct(t, 60, "freshInside") && n > 0 {
+			pos = unif(t, n+1, "freshPosInside")
+		}
+		b.Inject = append(b.Inject, Injected{Pos: pos, Kind: "check", Tx: tx})
+		if pct(t, 20, "freshDup") {
+			b.Inject = append(b.Inject, Injected{Pos: posGen("freshDupPos"), Kind: "check", Tx: tx})
+		}
+	}
+	// (c) garbage
+	if pct(t, 30, "garbageCheck") {
+		b.Inject = append(b.Inject, Injected{Pos: posGen("garbagePos"), Kind: "check", Tx: s.genRaw(w)})
+	}
+	// (d) queries
+	for i, nq := 0, unif(t, 5, "nQueries"); i < nq; i++ {
+		b.Inject = append(b.Inject, s.genQuery(w, posGen("queryPos")))
+	}
+}
+
+var queryPaths = []string{"account", "delegatee", "stakes", "stakes/total_power", "stakes/voting_power", "reward", "proposal", "gov_params", "nonsense"}
+
+func (s *GenSource) genQuery(w *World, pos int) Injected {
+	t := s.t
+	q := Injected{Pos: pos, Kind: "query", Path: pick(t, queryPaths, "qPath")}
+	switch q.Path {
+	case "proposal":
+		ks := append(sortedKeys(w.Open), sortedKeys(w.Frozen)...)
+		if len(ks) > 0 && pct(t, 70, "qKnownProposal") {
+			q.Data = unhx(pick(t, ks, "qProposal"))
+		} else if pct(t, 50, "qAllProposals") {
+			q.Data = nil
+		} else {
+			q.Data = txHashOf([]byte("none"))
+		}
+	case "gov_params", "stakes/total_power", "stakes/voting_power":
+	default:
+		if pct(t, 85, "qKnownAddr") {
+			q.Data = pick(t, s.all, "qAddr").Addr
+		} else {
+			q.Data = pick(t, [][]byte{nil, {1, 2, 3}, actorNamed("ghost").Addr, make([]byte, 40)}, "qOddAddr")
+		}
+	}
+	switch unif(t, 6, "qHeightKind") {
+	case 0, 1:
+		q.Height = 0
+	case 2:
+		q.Height = w.H
+	case 3:
+		if w.H > 1 {
+			q.Height = 1 + int64(unif(t, int(w.H), "qPast"))
+		}
+	case 4:
+		q.Height = w.H + 1 + int64(unif(t, 3, "qFuture"))
+	case 5:
+		q.Height = pick(t, []int64{-1, math.MinInt64, math.MaxInt64}, "qOddHeight")
+	}
+	return q
 }
 
 func (s *GenSource) genEvidence(w *World, h int64) Evid {
@@ -270,6 +369,9 @@ func (s *GenSource) genEvidence(w *World, h int64) Evid {
 }
 
 func (s *GenSource) EndBlock(w *World, b *Block) {
+	if s.P.Inject {
+		s.genInjections(w, b)
+	}
 	if s.OnEndBlock != nil {
 		s.OnEndBlock(w, b)
 	}
